@@ -53,6 +53,8 @@ IDENT = {
     "core::convert::Into::into",
     "core::convert::From::from",
 }
+_VB = r"(?:alloc::vec::Vec<u8>|alloc::boxed::Box<\[u8\]>)"
+OWNED_BYTES_CONV = re.compile(r"^<%s as core::convert::(?:Into|From)<%s>>::(?:into|from)$" % (_VB, _VB))
 # copying views: fresh owned buffer with the same bytes as the pointee of argument 0
 COPIES = {
     "alloc::slice::<impl [T]>::to_vec",
@@ -196,6 +198,7 @@ class Interp:
     def __init__(self, world, inline=True, inline_filter=None, resolver=None):
         self.resolver = resolver
         self.two_variant_discr = set()
+        self.field_bytes = {}
         self.discr_kind = {}
         self.in_widths = {}
         self.w = world
@@ -262,7 +265,13 @@ class Interp:
     def place_loc(self, ctx, path, pl):
         """Location denoted by a MIR place."""
         loc = ("L", ctx["frame"], pl["l"])
+        cur_ty = None
+        try:
+            cur_ty = ctx["fn"]["body"]["locals"][pl["l"]]["ty"] if pl["p"] else None
+        except Exception:
+            cur_ty = None
         for e in pl["p"]:
+            parent_ty, cur_ty = cur_ty, self._proj_ty(ctx, cur_ty, e)
             if e == "*":
                 v = self.read(path, loc)
                 if is_ptr(v):
@@ -273,6 +282,8 @@ class Interp:
                     loc = ("DEREF", v)
             elif isinstance(e, dict) and "f" in e:
                 loc = self.field_loc(ctx, loc, e["f"], e.get("ty"))
+                if loc[0] == "F":
+                    self._note_field_bytes(ctx, loc, parent_ty, e["f"])
             elif isinstance(e, dict) and "variant" in e:
                 loc = ("D", loc, e["name"] or str(e["variant"]))
             elif isinstance(e, dict) and "idx" in e:
@@ -288,6 +299,42 @@ class Interp:
             else:
                 loc = ("PROJ", loc, str(e))
         return loc
+
+    def _proj_ty(self, ctx, tid, e):
+        """Type id after one projection element (None when not tracked)."""
+        if isinstance(e, dict) and "f" in e:
+            return e.get("ty")
+        if tid is None:
+            return None
+        try:
+            ty = ctx["cr"].ty(tid)
+        except Exception:
+            return None
+        if e == "*":
+            return ty.get("inner") if ty.get("k") in ("ref", "ptr") else None
+        return None
+
+    def _note_field_bytes(self, ctx, floc, parent_ty, idx):
+        """Field idx of an alignment-1 struct (no padding anywhere) is the byte range [offset, next offset) of the struct's
+        bytes: remembered so that a field read of an opaque struct value gives the same term as reading those bytes."""
+        if parent_ty is None:
+            return
+        try:
+            ty = ctx["cr"].ty(parent_ty)
+        except Exception:
+            return
+        if ty.get("k") != "adt":
+            return
+        lay = self.w.adt_layout(ty.get("crate"), ty["path"])
+        if not lay or lay.get("kind") != "Struct" or lay.get("align") != 1 or "IS_C" not in lay.get("repr", ""):
+            return
+        offs = lay.get("offsets") or []
+        if idx >= len(offs):
+            return
+        start = offs[idx]
+        ends = sorted(o for o in offs if o > start)
+        end = ends[0] if ends else lay["size"]
+        self.field_bytes[floc] = (start, end)
 
     def field_loc(self, ctx, loc, idx, tyid=None):
         # struct overlay on a byte region (zerocopy): translate to a sub-region using the layout
@@ -371,7 +418,11 @@ class Interp:
                 bc = self.content(path, loc[1][1])
                 return self.variant_field(None, path, bc, loc[1][2], loc[2])
             bc = self.content(path, loc[1])
-            return field_of(bc, loc[2])
+            fv = field_of(bc, loc[2])
+            if isinstance(fv, tuple) and fv[0] == "field" and fv[1] is bc and loc in self.field_bytes:
+                a, b = self.field_bytes[loc]
+                return slice_of(bc, (a, 0), (b, 0))
+            return fv
         if k == "D":
             bc = self.content(path, loc[1])
             return ("downcast", bc, loc[2])
@@ -669,6 +720,23 @@ class Interp:
             return ("repeat", v, n if n is not None else self.tysub(ctx, short(rv["n_s"])))
         return ("unknown", "rvalue", k)
 
+    def flatten_struct(self, ctx, ce, v):
+        if not (isinstance(v, tuple) and v and v[0] == "agg" and v[1].startswith("adt:")):
+            return None
+        ga = ce.get("r_args") or ce.get("args") or []
+        if not ga or "t" not in ga[0]:
+            return None
+        ti = ctx["cr"].ty(ga[0]["t"])
+        if ti.get("k") != "adt":
+            return None
+        lay = self.w.adt_layout(ti.get("crate"), ti["path"])
+        if not lay or lay.get("kind") != "Struct" or lay.get("align") != 1 or len(lay.get("offsets") or []) != len(v[2]):
+            return None
+        if short(ti["path"]).rsplit("::", 1)[-1] != v[1].rsplit("::", 1)[-1]:
+            return None
+        order = sorted(range(len(v[2])), key=lambda i: lay["offsets"][i])
+        return ("concat", tuple(v[2][i] for i in order))
+
     def deref_content(self, path, v):
         if is_ptr(v):
             return self.content(path, v[1])
@@ -732,6 +800,12 @@ class Interp:
                     if blocks[tgt]["term"]["k"] == "unreachable" and not blocks[tgt]["stmts"]:
                         continue
                     live.append((v, tgt))
+                dm = self._option_diamond(ctx, blocks, d, t, live, visited)
+                if dm is not None:
+                    j = self._merge_option_diamond(ctx, path, d, dm, blocks)
+                    if j is not None:
+                        bi = j
+                        continue
                 for v, tgt in live:
                     p2 = path.fork() if len(live) > 1 else path
                     v2 = v
@@ -765,6 +839,77 @@ class Interp:
                 return
             out.append(Result_("unsupported", None, path, (fn["key"], bi)))
             return
+
+    # A `match opt { Some(x) => x, None => d }` written out by hand is Option::unwrap_or(opt, d): when both arms of a switch on an
+    # Option's discriminant are call-free straight-line assignments that meet again in one block, the two arms are evaluated and
+    # every location they leave different is the Some payload on one side, the walk continues from the join as ONE path with
+    # Option::unwrap_or(opt, d) there (exactly what it does for a real unwrap_or call). Any other diamond is forked as usual.
+    def _pure_chain(self, blocks, b):
+        chain = [b]
+        for _ in range(4):
+            blk = blocks[b]
+            if blk["term"]["k"] != "goto" or any(st["k"] != "assign" for st in blk["stmts"]):
+                break
+            if any(st["rv"]["k"] in ("agg",) and st["rv"]["ak"].get("a") == "closure" for st in blk["stmts"]):
+                break
+            b = blk["term"]["t"]
+            chain.append(b)
+        return chain
+
+    def _option_diamond(self, ctx, blocks, d, t, live, visited):
+        if not (isinstance(d, tuple) and d and d[0] == "discr") or len(live) != 2:
+            return None
+        T = d[1]
+        kind = type_kind_of(T) or self.discr_kind.get(T)
+        if kind != "option":
+            return None
+        some_v = 1
+        vals = [v for v, _ in live]
+        if sorted(map(str, vals)) == ["0", "1"]:
+            tg = {v: x for v, x in live}
+        elif "otherwise" in vals and len(t["arms"]) == 1 and t["arms"][0][0] in (0, 1):
+            av = t["arms"][0][0]
+            tg = {av: t["arms"][0][1], 1 - av: t["otherwise"]}
+        else:
+            return None
+        ca, cb = self._pure_chain(blocks, tg[some_v]), self._pure_chain(blocks, tg[0])
+        join = next((b for b in ca if b in cb), None)
+        if join is None or join in visited:
+            return None
+        arm_some, arm_none = ca[:ca.index(join)], cb[:cb.index(join)]
+        if not arm_some and not arm_none:
+            return None
+        return (T, arm_some, arm_none, join)
+
+    def _merge_option_diamond(self, ctx, path, d, dm, blocks):
+        T, arm_some, arm_none, join = dm
+        outs = []
+        for v, arm in ((1, arm_some), (0, arm_none)):
+            p2 = path.fork()
+            p2.assume[peel(T)] = "ok" if v == 1 else "err"
+            for b in arm:
+                for st in blocks[b]["stmts"]:
+                    val = self.rvalue(ctx, p2, st["rv"])
+                    loc = self.place_loc(ctx, p2, st["place"])
+                    self.write(p2, loc, val)
+            outs.append(p2)
+        ps, pn = outs
+        payload = self.okv(ctx, ps, T)
+        merged = dict(path.store)
+        for k in set(ps.store) | set(pn.store):
+            a, b = ps.store.get(k), pn.store.get(k)
+            if a == b:
+                merged[k] = a
+            elif a is None or b is None:
+                merged[k] = a if b is None else b      # assigned on one arm only: dead after the join
+            elif a == payload:
+                merged[k] = ("call", "Option::unwrap_or", (T, b))
+            else:
+                return None       # not the unwrap_or shape: the caller forks as usual
+        path.store = merged
+        for k, n in list(ps.minlen.items()) + list(pn.minlen.items()):
+            path.minlen[k] = max(path.minlen.get(k, 0), n)
+        return join
 
     def resolve_switch(self, path, d):
         if isinstance(d, tuple):
@@ -1058,6 +1203,13 @@ class Interp:
                     return a0
                 if p == "zerocopy::IntoBytes::as_bytes" and loc[0] == "R" and len(loc) > 4:
                     return ("ptr", loc[:4])
+                if p == "zerocopy::IntoBytes::as_bytes" and loc[0] in ("L", "F"):
+                    # a struct VALUE viewed as bytes: for an alignment-1 struct (no padding anywhere) these are the field
+                    # values in offset order
+                    v = self.read(path, loc)
+                    flat = self.flatten_struct(ctx, ce, v)
+                    if flat is not None:
+                        return ("ptr", ("T", flat))
                 return a0
             if p in ("core::convert::AsRef::as_ref",) and not ce.get("r_path"):
                 return NotImplemented
@@ -1070,8 +1222,11 @@ class Interp:
                     return a0
                 if not is_ptr(a0) and "generic_array::GenericArray" in full and ("[u8;" in full or "[T; " in full):
                     return a0
-                if ce.get("r_path") and ce.get("r_crate", "").startswith("paseto_"):
-                    return NotImplemented
+                # std owned-buffer conversions Vec<u8> <-> Box<[u8]>: same bytes, same length (like into_boxed_slice / into_vec)
+                if OWNED_BYTES_CONV.match(full) and not is_ptr(a0):
+                    if isinstance(a0, tuple) and a0 and a0[0] == "vec":
+                        return a0
+                    return ("vec", ("bytes_of", a0))
                 return NotImplemented
             if isinstance(a0, tuple) and a0 and a0[0] == "vec":
                 return a0
